@@ -59,6 +59,7 @@ def model_strategy(draw, pool, want_msw):
             if draw(st.booleans()):
                 holes.append((i - 1) + nx * ((j - 1) + ny * (k - 1)))
     m = MG.Model(dims=dims, blocked=blocked)
+    m.uda_devices = False
     nb = draw(st.integers(2, 4))
     blocks = []
     for b in range(nb):
